@@ -230,6 +230,9 @@ fn pos_pool(r: &mut Rng, exact: bool) -> Vec<f32> {
         let mut seen: Vec<f32> = Vec::new();
         pool.retain(|x| if seen.contains(x) { false } else { seen.push(*x); true });
     }
+    // one timeline in ten spells its 0% position as -0.0: numerically the same position (so every rule about "0%" applies),
+    // but a different bit pattern — ordering or equality on the bits goes wrong there
+    if r.chance(1, 10) { for x in pool.iter_mut() { if *x == 0.0 { *x = -0.0; } } }
     pool
 }
 
@@ -374,6 +377,12 @@ fn gen_num(r: &mut Rng, n: usize, out: &mut dyn Write) {
 const INT_KINDS: [&str; 9] = ["i8", "i16", "i32", "i64", "u8", "u16", "u32", "u64", "usize"];
 
 fn x_tok(r: &mut Rng) -> f32 {
+    if r.chance(1, 12) {
+        // the immediate neighbourhoods of 0 and 1 and the smallest magnitudes: "close enough to the end" shortcuts live here
+        return r.pick(&[f32::from_bits(0x3F7F_FFFF), f32::from_bits(0x3F7F_FFFE), f32::from_bits(0x3F80_0001), f32::from_bits(0x3380_0000) /* 2^-24 */,
+                        f32::from_bits(0x3400_0000) /* 2^-23 */, f32::from_bits(1), f32::from_bits(0x0080_0000), -0.0, f32::EPSILON, 1.0 - f32::EPSILON,
+                        0.999_999, 1e-7, 0.5 + f32::EPSILON, 0.49999997]);
+    }
     match r.below(10) {
         0 => 0.0,
         1 => 1.0,
@@ -389,6 +398,30 @@ fn tok_f32_exact(kind: &str, tok: &str) -> bool {
     if kind == "f32" || kind == "f64" { return true; }
     let v: i128 = tok.parse().unwrap();
     (v as f32) as i128 == v && ((v as f32) as f64) == v as f64
+}
+
+/// The nearest-integer law, judged strictly where binary32 cannot blur it: if `1-x`, `a·(1-x)`, `c·x` and their sum are
+/// all exactly representable in binary32 (24 significant bits), the code's f32 computation *is* the real interpolation and
+/// the integer result must be that value rounded to nearest (ties away from zero).  Returns the expected integer then.
+fn exact_lerp_expect(a: i128, c: i128, x: f32) -> Option<i128> {
+    if !(x > 0.0 && x < 1.0) { return None; }
+    let bits = x.to_bits();
+    let (ex, fr) = ((bits >> 23) & 0xFF, bits & 0x7F_FFFF);
+    let (mut m, mut k): (i128, i32) = if ex == 0 { (fr as i128, 149) } else { ((fr | 0x80_0000) as i128, 150 - ex as i32) };   // x = m / 2^k
+    while m % 2 == 0 && k > 0 { m /= 2; k -= 1; }
+    if k > 40 || k < 0 { return None; }
+    let fits = |n: i128| -> bool { let mut v = n.unsigned_abs(); if v == 0 { return true; } while v % 2 == 0 { v /= 2; } v < (1 << 24) };
+    let one_minus = (1i128 << k) - m;                 // (1 - x) · 2^k
+    let p1 = a.checked_mul(one_minus)?;               // a·(1-x) · 2^k
+    let p2 = c.checked_mul(m)?;                       // c·x · 2^k
+    let sum = p1.checked_add(p2)?;
+    if !(fits(one_minus) && fits(p1) && fits(p2) && fits(sum) && fits(a) && fits(c)) { return None; }
+    // round half away from zero of sum / 2^k
+    let d = 1i128 << k;
+    let q = sum.div_euclid(d);
+    let rem = sum.rem_euclid(d);
+    let r = if sum >= 0 { if 2 * rem >= d { q + 1 } else { q } } else { if 2 * rem > d { q + 1 } else { q } };
+    Some(r)
 }
 
 fn gen_lerp(r: &mut Rng, n: usize, out: &mut dyn Write, exhaustive8: bool) {
@@ -407,6 +440,20 @@ fn gen_lerp(r: &mut Rng, n: usize, out: &mut dyn Write, exhaustive8: bool) {
             }
         }
     }
+    // directed: wide integer ranges (powers of two and their small multiples) at x next to 0 and 1 and at dyadic x
+    for kind in ["i32", "u32", "i64", "u64", "usize", "i16", "u16"] {
+        let (lo, hi) = int_bounds(kind);
+        for sh in [10u32, 15, 20, 24, 28, 30, 31, 40, 62] {
+            let big: i128 = 1i128 << sh;
+            if big > hi { continue; }
+            for (a, c) in [(0i128, big), (big, 0), (if lo < 0 { -big.min(-lo) } else { 0 }, big), (3 * (big >> 2), big)] {
+                for x in [f32::from_bits(0x3F7F_FFFF), f32::from_bits(0x3380_0000), 0.5f32, 0.25, 0.75, f32::from_bits(0x3F7F_FFFE), 1.0 / 1024.0] {
+                    writeln!(out, "lerp {} {} {} {}", kind, a, c, b(x)).unwrap();
+                    if let Some(e) = exact_lerp_expect(a, c, x) { if e >= lo && e <= hi { writeln!(out, "# expect C14 1 0={}", e).unwrap(); } }
+                }
+            }
+        }
+    }
     for _ in 0..n {
         let kind = if r.chance(1, 4) { "f32" } else { r.pick(&INT_KINDS) };
         let a = val_tok(r, kind, false);
@@ -419,6 +466,12 @@ fn gen_lerp(r: &mut Rng, n: usize, out: &mut dyn Write, exhaustive8: bool) {
         if x == 0.0 { writeln!(out, "# expect C14 1 0={}", a).unwrap(); }
         else if x == 1.0 { writeln!(out, "# expect C14 1 0={}", c).unwrap(); }
         else if a == c && inrange { writeln!(out, "# expect C14 1 0={}", a).unwrap(); }
+        else if kind != "f32" {
+            if let Some(e) = exact_lerp_expect(a.parse().unwrap(), c.parse().unwrap(), x) {
+                let (lo, hi) = int_bounds(kind);
+                if e >= lo && e <= hi { writeln!(out, "# expect C14 1 0={}", e).unwrap(); }
+            }
+        }
         if r.chance(1, 4) {
             // f64: arbitrary doubles
             let fa = (r.unit_f32() as f64 - 0.5) * 10f64.powi(r.below(20) as i32 - 10);
@@ -480,6 +533,38 @@ fn gen_ease(r: &mut Rng, n: usize, out: &mut dyn Write) {
         writeln!(out, "easeraw {} {}", c, b(x)).unwrap();
         writeln!(out, "# eq C13 1 2").unwrap();
     }
+    // "a custom easing is used as given", inside timelines: the segment from a keyframe that names custom easing B is eased
+    // with B whatever the timeline's default easing is — another custom easing A (twin 0), Linear (twin 1) — and it is the
+    // same as making B the default and naming no easing on the keyframe (twin 2)
+    for _ in 0..(n / 10).max(30) {
+        let a = r.pick(&customs);
+        let mut c = r.pick(&customs);
+        while c == a { c = r.pick(&customs); }
+        let mut tl = gen_timeline(r, "S8", true, true);
+        tl.kfs.truncate(0);
+        let nanim = shape_fields("S8").iter().filter(|f| f.1).count();
+        let kinds: Vec<&str> = shape_fields("S8").iter().filter(|f| f.1).map(|f| f.0).collect();
+        for pos in [0.0f32, 1.0] {
+            let vals: Vec<Option<String>> = (0..nanim).map(|j| Some(val_tok(r, kinds[j], true))).collect();
+            tl.kfs.push(GenKf { pos, easing: None, vals });
+        }
+        tl.rep = Some("n".into()); tl.rev = Some(false); tl.delay = Some(0.0); tl.dur = Some(1.0);
+        let mut t0 = tl.clone(); t0.easing = Some(a.to_string()); t0.kfs[0].easing = Some(c.to_string());
+        let mut t1 = tl.clone(); t1.easing = Some("Linear".into()); t1.kfs[0].easing = Some(c.to_string());
+        let mut t2 = tl.clone(); t2.easing = Some(c.to_string());
+        writeln!(out, "reset").unwrap();
+        writeln!(out, "{}", shape_line("S8")).unwrap();
+        writeln!(out, "{}", t0.line(0)).unwrap();
+        writeln!(out, "{}", t1.line(1)).unwrap();
+        writeln!(out, "{}", t2.line(2)).unwrap();
+        for _ in 0..4 {
+            let t = if r.chance(1, 2) { r.below(1025) as f32 / 1024.0 } else { r.unit_f32() };
+            let target = vals_line(r, "S8", true);
+            for k in 0..3 { writeln!(out, "upd {} {} {}", k, b(t), target.join(" ")).unwrap(); }
+            writeln!(out, "# eq C13 1 2").unwrap();
+            writeln!(out, "# eq C13 2 4").unwrap();
+        }
+    }
 }
 
 fn gen_pos(r: &mut Rng, n: usize, out: &mut dyn Write) {
@@ -515,6 +600,46 @@ fn gen_pos(r: &mut Rng, n: usize, out: &mut dyn Write) {
     }
 }
 
+/// permutation twins over keyframe positions the library does not forbid but ordinary use never has: beyond 100 %, below
+/// 0 %, -0.0 — "the order in which keyframes are added does not matter" speaks of distinct positions, not of [0,1]
+fn gen_tlw(r: &mut Rng, n: usize, out: &mut dyn Write) {
+    let wild = [-0.5f32, -0.25, -0.0, 0.25, 0.5, 0.75, 1.0, 1.0000001, 1.25, 1.5, 2.0, 3.0];
+    for _ in 0..n {
+        writeln!(out, "reset").unwrap();
+        writeln!(out, "{}", shape_line("S8")).unwrap();
+        let mut tl = gen_timeline(r, "S8", false, true);
+        let nkf = 2 + r.below(5) as usize;
+        let mut pool = wild.to_vec();
+        r.shuffle(&mut pool);
+        let proto = tl.kfs.clone();
+        tl.kfs.clear();
+        for i in 0..nkf {
+            let nanim = shape_fields("S8").iter().filter(|f| f.1).count();
+            let mut k = if !proto.is_empty() { proto[i % proto.len()].clone() } else { GenKf { pos: 0.0, easing: None, vals: vec![None; nanim] } };
+            k.pos = pool[i];
+            if k.vals.iter().all(|v| v.is_none()) { k.vals[0] = Some(val_tok(r, "f32", true)); }
+            tl.kfs.push(k);
+        }
+        writeln!(out, "{}", tl.line(0)).unwrap();
+        let mut perm = tl.clone();
+        r.shuffle(&mut perm.kfs);
+        writeln!(out, "{}", perm.line(1)).unwrap();
+        writeln!(out, "meta 0").unwrap();
+        writeln!(out, "meta 1").unwrap();
+        writeln!(out, "# eq C11 1 2").unwrap();
+        let (delay, dur) = (tl.delay_v(), tl.dur_v());
+        let mut times: Vec<f32> = vec![0.0, delay, delay + dur, delay + dur * 0.5];
+        for p in [0.1f32, 0.25, 0.3, 0.5, 0.6, 0.75, 0.9, 1.0] { times.push(delay + dur * p); }
+        for _ in 0..4 { times.push(delay + dur * r.unit_f32() * 2.0); }
+        for t in times {
+            let target = vals_line(r, "S8", true);
+            writeln!(out, "upd 0 {} {}", b(t), target.join(" ")).unwrap();
+            writeln!(out, "upd 1 {} {}", b(t), target.join(" ")).unwrap();
+            writeln!(out, "# eq C11 1 2").unwrap();
+        }
+    }
+}
+
 fn gen_tl(r: &mut Rng, n: usize, out: &mut dyn Write) {
     for s in ["S8", "Q5", "R4"] {
         writeln!(out, "{}", shape_line(s)).unwrap();
@@ -546,7 +671,21 @@ fn gen_tl(r: &mut Rng, n: usize, out: &mut dyn Write) {
         writeln!(out, "{}", tl.line(2)).unwrap();
         writeln!(out, "{}", tl.line(4)).unwrap();
         let distinct = tl.distinct_positions();
-        let start: Option<Vec<String>> = if r.chance(1, 2) { Some(vals_line(r, shape, tame)) } else { None };
+        let mut start: Option<Vec<String>> = if r.chance(1, 2) { Some(vals_line(r, shape, tame)) } else { None };
+        if start.is_some() && r.chance(1, 4) {
+            // value coincidence: the latest start_with carries, for every animated property, exactly the value its own 0%
+            // frame has (the explicit 0% keyframe's value, else the type's default) — "nothing to override" shortcuts
+            let fields = shape_fields(shape);
+            let mut sv = start.clone().unwrap();
+            let mut j = 0;
+            for (i, (kind, animated)) in fields.iter().enumerate() {
+                if !*animated { continue; }
+                let at0 = tl.kfs.iter().filter(|k| k.pos == 0.0).filter_map(|k| k.vals[j].clone()).last();
+                sv[i] = at0.unwrap_or_else(|| if *kind == "f32" || *kind == "f64" { b(0.0) } else { "0".to_string() });
+                j += 1;
+            }
+            start = Some(sv);
+        }
         if let Some(sv) = &start {
             // an earlier start_with that must be fully replaced (C09)
             // (twin 4 only ever sees the latest one)
@@ -959,6 +1098,30 @@ fn gen_anim6(r: &mut Rng, n: usize, out: &mut dyn Write) {
                 }
             }
         }
+        // many small steps against one big one: 257 / 1025 advances of 1/64 s (rarely 65 537 of 1/1024 s) in one state —
+        // call counters and narrow accumulators wrap only there; and one very long step (2 h) against two halves
+        if r.chance(1, 20) || r.chance(1, 2000) {
+            let (n, dt) = if r.chance(1, 40) { (65_537usize, 1.0f32 / 1024.0) } else { (r.pick(&[257usize, 1025]), 1.0f32 / 64.0) };
+            for _ in 0..n { writeln!(out, "adv 0 {}", b(dt)).unwrap(); }
+            writeln!(out, "adv 1 {}", b(n as f32 * dt)).unwrap();
+            writeln!(out, "# eq C06 1 2").unwrap();
+            writeln!(out, "adv 0 {}", b(7200.0)).unwrap();
+            writeln!(out, "adv 1 {}", b(3600.0)).unwrap();
+            writeln!(out, "adv 1 {}", b(3600.0)).unwrap();
+            writeln!(out, "# eq C06 1 3").unwrap();
+        }
+        // very long times in one state (hours … months), crossed at different points by the two twins: big + small in one
+        // step against big, then small (all sums exact in binary32)
+        if r.chance(1, 10) {
+            let big = r.pick(&[4096.0f32, 65536.0, 1048576.0, 16777216.0]);
+            let small = r.pick(&[8.0f32, 0.5, 2.0, 16.0, 1.0]);
+            let small = if big >= 16777216.0 { small.max(2.0).round() * 2.0 } else if big >= 1048576.0 { small.max(1.0) } else { small };
+            let single = r.below(2);
+            writeln!(out, "adv {} {}", single, b(big + small)).unwrap();
+            writeln!(out, "adv {} {}", 1 - single, b(big)).unwrap();
+            writeln!(out, "adv {} {}", 1 - single, b(small)).unwrap();
+            writeln!(out, "# eq C06 1 3").unwrap();
+        }
         for _ in 0..(3 + r.below(5)) {
             let k = 1 + r.below(6) as usize;
             let parts: Vec<f32> = (0..k).map(|_| r.pick(&parts_pool)).collect();
@@ -1041,6 +1204,7 @@ pub fn generate(suite: &str, seed: u64, n: usize, out: &mut dyn Write) {
         "ease" => gen_ease(&mut r, n, out),
         "pos" => gen_pos(&mut r, n, out),
         "tl" => gen_tl(&mut r, n, out),
+        "tlw" => gen_tlw(&mut r, n, out),
         "merged" => gen_merged(&mut r, n, out),
         "anim" => gen_anim(&mut r, n, out),
         "anim6" => gen_anim6(&mut r, n, out),
